@@ -16,7 +16,7 @@ package PVM
 // The dispatcher is executed symbolically for every key; the handler it returns must satisfy the template.
 
 //@ table instrMetaExecForOpcode alu
-//@   props C01 C02 C03
+//@   props C01 C03
 //@   spec pvm.smt2
 //@   key op uint8 20,51,100,102..111,131..161,190..230
 //@   opt noframe
@@ -33,7 +33,7 @@ package PVM
 //@ pred regs_ok(op, instr) = instr.Opcode == op && (spec.pvm_needs_dst(op) ==> instr.Dst < 13) && (spec.pvm_needs_src0(op) ==> instr.Src[0] < 13) && (spec.pvm_needs_src1(op) ==> instr.Src[1] < 13) && (spec.pvm_dst_is_src0(op) ==> instr.Dst == instr.Src[0])
 
 //@ table instrMetaExecForOpcode noarg
-//@   props C01 C02 C03
+//@   props C01 C03
 //@   spec pvm.smt2
 //@   key op uint8 0,1
 //@   opt noframe
@@ -65,7 +65,7 @@ package PVM
 //@   ensures frame: frame_only()
 
 //@ table instrMetaExecForOpcode condbranch
-//@   props C01 C02 C03
+//@   props C01 C03
 //@   spec pvm.smt2
 //@   key op uint8 81..90,170..175
 //@   opt noframe
@@ -79,7 +79,7 @@ package PVM
 //@   ensures frame: frame_only()
 
 //@ table instrMetaExecForOpcode jump
-//@   props C01 C02 C03
+//@   props C01 C03
 //@   spec pvm.smt2
 //@   key op uint8 40,80
 //@   opt noframe
@@ -134,7 +134,7 @@ package PVM
 
 // ---- loads / stores through the memory primitives (modular: the callee contracts above are used at the call sites) ----
 //@ table instrMetaExecForOpcode load
-//@   props C01 C02 C03 C05
+//@   props C01 C03 C05
 //@   spec pvm.smt2
 //@   key op uint8 52..58,124..130
 //@   opt noframe
@@ -147,7 +147,7 @@ package PVM
 //@   ensures ok: a >= 65536 && readable(interp.Memory, a, n) ==> result0 == ExitContinue && result1 == instr.PC && forall(i, 0, 13, interp.Registers[i] == ite(i == int(instr.Dst), spec.pvm_load_ext(op, old(mload(interp.Memory, a, n))), old(interp.Registers[i]))) && frame_only(interp.Registers)
 
 //@ table instrMetaExecForOpcode store
-//@   props C01 C02 C03 C05
+//@   props C01 C03 C05
 //@   spec pvm.smt2
 //@   key op uint8 30..33,59..62,70..73,120..123
 //@   opt noframe
@@ -171,7 +171,7 @@ package PVM
 //@ pred blockstart64(p, t) = t < uint64(len(p.Bitmasks)) && p.Bitmasks[int(t)] == 3
 
 //@ table instrMetaExecForOpcode djump
-//@   props C01 C02 C03
+//@   props C01 C03
 //@   spec pvm.smt2
 //@   key op uint8 50,180
 //@   opt noframe
@@ -282,12 +282,40 @@ package PVM
 
 // ---- single-step engine (inner machines): handler table execInstructions ----
 //@ readonly execInstructions
-//@ pred step_wf(interp, pc, skipLength) = interp != nil && interp.Program != nil && interp.Memory != nil && wf_code_v(*interp.Program) && int(pc) < len(interp.Program.InstructionData) && uint64(skipLength) <= 24 && uint64(pc) + uint64(skipLength) < uint64(len(interp.Program.InstructionData))
+//@ pred step_wf(interp, pc, skipLength) = interp != nil && interp.Program != nil && interp.Memory != nil && wf_code_v(*interp.Program) && uint64(skipLength) <= 24 && uint64(pc) + 26 <= uint64(len(interp.Program.InstructionData))
 //@ pred wf_mem_s(m) = wf_mem(m) && all(p, uint32, pages_apart(m, p, p+1))
 //@ table verifSingleStepHandler ss_safe
 //@   props C02 C33
 //@   spec pvm.smt2
-//@   key op uint8 0,1,10,20,30..33,40,50..62,70..73,80..90,100..111,120..161,170..175,180,190..230
+//@   key op uint8 0,1,10,20,30..33,40,50..62,70..73,80..90,100,102..111,120..161,170..175,180,190..230
+//@   quickkeys 0,10,20,30,40,50,52,59,70,80,100,120,124,131,170,180,200
 //@   opt noframe
 //@   requires wf: step_wf(interp, pc, skipLength) && wf_mem_s(interp.Memory) && wf_jt_v(*interp.Program)
 //@   ensures ok: true
+
+// ---- C02: handler-level equivalence of the two engines, one opcode at a time, on the real handlers ----
+// Machines a and b are distinct objects running the same program from equal registers; pc is an instruction start
+// of a zero-padded code (what preDecodeBlocks and SingleStepStateTransition hand to the decoders).
+//@ pred pair_wf(op, a, b, pc, skipLen) = a != nil && b != nil && a != b && a.Program != nil && a.Program == b.Program && wf_code_v(*a.Program) && wf_jt_v(*a.Program) && skipLen <= 24 && uint64(pc) + 32 <= uint64(len(a.Program.InstructionData)) && a.Program.InstructionData[int(pc)] == op && forall(i, 0, 13, a.Registers[i] == b.Registers[i])
+//@ table verifStepPair pair_alu
+//@   props C02
+//@   key op uint8 0,1,20,51,100,102..111,131..161,190..193,197..202,207..212,216..230
+//@   quickkeys 0,1,20,51,100,108,131,138,147,158,190,200,207,221,227
+//@   opt noframe
+//@   opt slow=3
+//@   opt inlinecalls=decodeOperands
+//@   requires wf: pair_wf(op, a, b, pc, skipLen)
+//@   ensures exit: result0 == result2 && result1 == result3
+//@   ensures regs: forall(i, 0, 13, a.Registers[i] == b.Registers[i])
+
+// control flow: static jumps/branches (40, 80..90, 170..175), dynamic jumps (50, 180), ecalli (10)
+//@ table verifStepPair pair_ctl
+//@   props C02
+//@   key op uint8 10,40,50,80,82..85,90,170..175
+//@   quickkeys 10,40,82,170
+//@   opt noframe
+//@   opt slow=3
+//@   opt inlinecalls=decodeOperands
+//@   requires wf: pair_wf(op, a, b, pc, skipLen)
+//@   ensures exit: result0 == result2 && result1 == result3
+//@   ensures regs: forall(i, 0, 13, a.Registers[i] == b.Registers[i])
